@@ -194,8 +194,12 @@ class CheckC03(core.Check):
                 continue
             if er.skipped:
                 continue
+            if er.panic and kind != "control":
+                # the receiving read's result is C03's own predicate (reject with an error): a panic is not a rejection
+                r.viol("C03|panic|%s|%s" % (kind, field), "%s: read_message panicked on message %d altered in transit (%s, %s): %s" % (name, inf["k"], kind, field, er.res[:120]))
+                continue
             if er.panic:
-                r.foreign_dev("C10", "hs_read panicked on an altered message")
+                r.foreign_dev("C10", "hs_read panicked on the genuine message")
                 continue
             genuine = regs.get("g%d" % j)
             try:
